@@ -86,15 +86,20 @@ C01(pre, e, post, line) ==
 
 \* ---- C02 -----------------------------------------------------------------------------------
 ClosingOps == {"close_balance", "purge"}
+\* withdraw-all / repay-all close the position as well: the side they settle is settled exactly, whatever (sub-0.0001) was left
+\* on the other side of that position is abandoned with it
+IsAllOp(e) == e.ev \in {"withdraw", "repay"} /\ Has(e.a, "all") /\ e.a.all = TRUE
+Closes(e) == e.ev \in ClosingOps \/ IsAllOp(e)
+DustSide(e, f) == e.ev \in ClosingOps \/ (IsAllOp(e) /\ ((e.ev = "withdraw" /\ f = "l") \/ (e.ev = "repay" /\ f = "a")))
 C02Acc0 == [closes |-> <<>>]
-DustSlots(pre, e) == IF e.ev \in ClosingOps /\ Ok(e) THEN 1 ELSE 0
+DustSlots(pre, e) == IF Closes(e) /\ Ok(e) THEN 1 ELSE 0
 C02AccNext(acc, pre, e, post) ==
   IF e.ev = "reset" THEN
      \* baseline: dust already abandoned in the seeded state, in units of EPS (rounded up), per bank and side
      [closes |-> [bn \in DOMAIN post.banks |->
         [a |-> RCeil(RDiv(RMul(R(BSub(post.banks[bn].tas, SumPosBits(post, bn, "a"))), R(post.banks[bn].asv)), EPS)),
          l |-> RCeil(RDiv(RMul(R(BSub(post.banks[bn].tls, SumPosBits(post, bn, "l"))), R(post.banks[bn].lsv)), EPS))]]]
-  ELSE IF e.ev \in ClosingOps /\ Ok(e) /\ Has(e.a, "bank") /\ Has(acc.closes, e.a.bank) THEN
+  ELSE IF Closes(e) /\ Ok(e) /\ Has(e.a, "bank") /\ Has(acc.closes, e.a.bank) THEN
      [closes |-> [acc.closes EXCEPT ![e.a.bank] = [a |-> BAdd(@.a, BOne), l |-> BAdd(@.l, BOne)]]]
   ELSE IF DOMAIN post.banks # DOMAIN acc.closes THEN
      [closes |-> [bn \in DOMAIN post.banks |-> IF Has(acc.closes, bn) THEN acc.closes[bn] ELSE [a |-> BZero, l |-> BZero]]]
@@ -106,7 +111,7 @@ C02Side(pre, e, post, line, bn, tot, f) ==
       dPos == BSub(SumPosBits(post, bn, f), SumPosBits(pre, bn, f))
       D == BSub(dTot, dPos)                \* shares added to the total but to no position (raw bits)
       sv == IF f = "a" THEN R(q.asv) ELSE R(q.lsv)
-  IN IF e.ev \in ClosingOps
+  IN IF DustSide(e, f)
      THEN Chk("C02", "close_abandons_only_dust", line,
               ~BIsNeg(D) /\ RLt(RMul(R(D), sv), EPS), [bank |-> bn, side |-> f, diff_bits |-> D])
      ELSE Chk("C02", "total_changes_by_sum_of_position_changes", line, BIsZero(D),
@@ -123,7 +128,7 @@ C02(pre, e, post, acc, line) ==
               xa == BSub(q.tas, SumPosBits(post, bn, "a"))
               xl == BSub(q.tls, SumPosBits(post, bn, "l"))
               budget == IF Has(acc.closes, bn) THEN acc.closes[bn] ELSE [a |-> BZero, l |-> BZero]
-              bonus == IF e.ev \in ClosingOps THEN BOne ELSE BZero
+              bonus == IF Closes(e) THEN BOne ELSE BZero
           IN /\ Chk("C02", "total_at_least_sum_of_positions", line, ~BIsNeg(xa) /\ ~BIsNeg(xl), [bank |-> bn, excess_a |-> xa, excess_l |-> xl])
              /\ Chk("C02", "excess_is_only_abandoned_dust", line,
                     /\ RLe(RMul(R(xa), R(q.asv)), RMul(ROfBig(BAdd(budget.a, bonus)), EPS))
